@@ -10,7 +10,7 @@ ID = 'C03'
 TITLE = 'llh2xyz / xyz2llh'
 LEVEL = 'exploration'
 RULE = ('geodetic inputs lat -90..90 (exactly 0, +-0.0, +-90, +-1e-12), lon -360..360, h -1e4..4e7 (uniform and log), shipped and '
-        'random ellipsoids (a 6.3e6..6.4e6 m, 1/f 150..400 only: flatter ellipsoids are not generated), float and angle-object arguments, functional and CoordGeo/CoordCart API: llh2xyz against the closed '
+        'random ellipsoids (a 6.3e6..6.4e6 m, 1/f 150..400 only: flatter ellipsoids are not generated; every eighth case is drawn at the flat end 1/f 150..165, h 1e5..4e7, |lat| < 50), float and angle-object arguments, functional and CoordGeo/CoordCart API: llh2xyz against the closed '
         'form (prime-vertical radius of that ellipsoid) within 1 um; Cartesian inputs generated from geodetic ones and directly in '
         'all octants with distance from the axis 1e-9..4e7 m: xyz2llh result mapped back by the closed form within 0.02 mm, '
         'longitude in [-180,180].  a surface point followed by points on the same geocentric ray at other heights; 3 % of the cases are preceded by calls the property does not speak about (latitudes beyond the poles, NaN, inf, strings, None, the geocentre): not judged, exceptions swallowed, the judged call after them must be as right as ever.  distinct = ellipsoid x |lat| class x height decade x axis-distance decade x argument type x api')
@@ -121,6 +121,14 @@ def gen_case(rnd):
     if rnd.random() < 0.08:
         x, y = rnd.choice([(p, 0.0), (0.0, p), (-p, 0.0), (0.0, -p), (-p, -0.0)])
     return {'mode': 'cart', 'ell': ell, 'x': x, 'y': y, 'z': z, 'api': 'coord' if rnd.random() < 0.1 else 'func'}
+
+
+def gen_flat_case(rnd):
+    """The slow end of the latitude iteration inside the generated range: the flattest ellipsoids drawn (1/f 150..165) at
+    heights of 100 km .. 40 000 km and low or middle latitude, where a shortened iteration shows first (own random stream)."""
+    ell = [round(rnd.uniform(6.3e6, 6.4e6), 3), round(rnd.uniform(150.0, 165.0), 6)]
+    return {'mode': 'geo', 'ell': ell, 'lat': rnd.uniform(-50, 50), 'lon': rnd.uniform(-180, 180),
+            'h': min(10 ** rnd.uniform(5, 7.61), 4e7), 'argt': 'float', 'api': 'func'}
 
 
 def ray_sequence(rnd):
@@ -292,8 +300,12 @@ def run_shard(spec, ctx):
     reach.watch(ns.convert.xyz2llh)
     reach.start()
     rnd = random.Random('%s-%s-%s' % (ID, spec['seed'], spec['shard']))
+    rnd_flat = random.Random('%s-flat-%s-%s' % (ID, spec['seed'], spec['shard']))
     try:
         for i in range(spec['n']):
+            if i % 8 == 0:
+                judge(ns, ctx, gen_flat_case(rnd_flat))
+                ctx.count('flat_end_cases')
             case = gen_case(rnd)
             if rnd.random() < 0.03:
                 case['before'] = gen_unjudged_calls(rnd)
